@@ -99,6 +99,51 @@ def trivial_return(func):
     return ret
 
 
+_LIBC_RETURNS_FIRST = ("memcpy", "memmove", "memset", "strcpy", "strncpy", "__builtin_memcpy", "__builtin_memset", "__builtin_memmove")
+
+
+def returned_param(model, unit, name, _depth=0):
+    """index of the parameter whose value the function returns on its single return (directly, through a single-definition
+    local, or as the result of memcpy / memset / a function of the same kind applied to it), else None"""
+    if name in _LIBC_RETURNS_FIRST:
+        return 0
+    if _depth > 3:
+        return None
+    f = model.funcs.get(model.resolve(unit, name))
+    if f is None or f.body is None:
+        return None
+    cache = model.__dict__.setdefault("_returned_param", {})
+    if f.key in cache:
+        return cache[f.key]
+    cache[f.key] = None
+    rets = [x for x in walk(f.body) if x["kind"] == "ReturnStmt"]
+    res = None
+    if len(rets) == 1 and kids(rets[0]):
+        e = strip(kids(rets[0])[0], casts=True)
+        for _ in range(6):
+            if e["kind"] == "DeclRefExpr" and e.get("ref", {}).get("kind") == "ParmVarDecl":
+                for i_, p_ in enumerate(f.params):
+                    if p_.get("id") == e["ref"].get("id"):
+                        res = i_
+                break
+            if e["kind"] == "DeclRefExpr" and e.get("ref", {}).get("kind") == "VarDecl":
+                defs = [v for v in walk(f.body) if v["kind"] == "VarDecl" and v.get("id") == e["ref"].get("id") and kids(v)]
+                writes = [y for y in walk(f.body) if y["kind"] == "BinaryOperator" and y.get("opcode") == "=" and
+                          strip(kids(y)[0], casts=True).get("ref", {}).get("id") == e["ref"].get("id")]
+                if len(defs) == 1 and not writes:
+                    e = strip(kids(defs[0])[0], casts=True)
+                    continue
+                break
+            if e["kind"] == "CallExpr" and callee_ref(e):
+                j_ = returned_param(model, f.unit, callee_ref(e), _depth + 1)
+                if j_ is not None and j_ + 1 < len(kids(e)):
+                    e = strip(kids(e)[j_ + 1], casts=True)
+                    continue
+            break
+    cache[f.key] = res
+    return res
+
+
 class FuncCtx:
     def __init__(self, model, func):
         self.model = model
@@ -286,6 +331,13 @@ class FuncCtx:
                 d = self.single_def(s["ref"]["id"])
                 if d is not None:
                     n = d
+                    seen += 1
+                    continue
+            if s["kind"] == "CallExpr" and callee_ref(s):
+                # a function that hands back one of its arguments (memcpy / memset and wrappers of them): the value is that argument
+                i_ = returned_param(self.model, self.func.unit, callee_ref(s))
+                if i_ is not None and i_ + 1 < len(kids(s)):
+                    n = kids(s)[i_ + 1]
                     seen += 1
                     continue
             return s
